@@ -355,4 +355,114 @@ def mustRejectText (F : TFields) : Option String :=
      | _, _ => none)
   | none, _ => none
 
+/-! ### the three tokens the statement does not name: `%w`, `%y`, `%J` (audit 3, A2)
+
+  C19's statement lists fourteen tokens; `Format::from_str` knows three more.  They get their own layer here so that
+  everything above — the statement's own quantifier, over which the theorems are proved — stays as it is.
+
+  * `%w`: the rustdoc says "Weekday in decimal form with C89 standard": ONE decimal digit, 0 = Sunday … 6 = Saturday,
+    of the weekday of the printed date (the statement's general sentence: the field of the epoch's Gregorian
+    representation in its own time scale) — the same day `%A` names.
+  * `%J`: the rustdoc says "Full day of year as a double": a decimal numeral `digits[.digits]` (Rust's `Display` of an
+    f64 never uses an exponent) within `2·10⁻¹²` of the exact day of year, 1 + (time since 1 January 00:00:00 of the
+    printed date's year) / 1 day.  The tolerance is the one C09 / C20 use for `day_of_year()`: the float expression
+    is proved within 10·2⁻⁵³ relative (< 4.1·10⁻¹³ below 367) and the shortest round-trip numeral is within half an
+    ulp (< 2.9·10⁻¹⁴) of the double.  One-based like `%j` (the rustdoc EXAMPLES of both are zero-based: "059" /
+    "59.62…" for 29 February, day 60 — an inaccuracy of the examples, not of the code).
+  * `%y`: the statement is SILENT (not among its tokens; a two-digit year is not "the full date"), and the rustdoc
+    ("on two digits | 23") and the code have differed.  Nothing is demanded beyond "an optional `-` and ASCII
+    digits": what exactly is printed is tied to the model only. -/
+
+def supportedX (c : Nat) : Bool := supported c || c == 119 || c == 121 || c == 74
+
+def readPieceX : List Nat → Option SItem
+  | [] => none
+  | c :: rest =>
+    if supportedX c ∧ rest.length ≤ 2 ∧ rest.all (fun x => decide (x < 128)) then
+      some ⟨c, rest.filter (· ≠ 63), rest.contains 63⟩
+    else none
+
+def readPiecesX : List (List Nat) → Option (List SItem)
+  | [] => some []
+  | p :: ps =>
+    match readPieceX p, readPiecesX ps with
+    | some it, some r => some (it :: r)
+    | _, _ => none
+
+/-- a format string of 1 to 16 tokens of the seventeen -/
+def readFormatX (s : List Nat) : Option (List SItem) :=
+  match splitAt37 s with
+  | [] :: pieces =>
+    if 1 ≤ pieces.length ∧ pieces.length ≤ 16 then readPiecesX pieces else none
+  | _ => none
+
+def tokenDebugNameX (c : Nat) : String :=
+  if c = 119 then "WeekdayDecimal" else if c = 121 then "YearShort" else if c = 74 then "DayOfYear"
+  else tokenDebugName c
+
+def debugTextX (items : List SItem) : List Nat :=
+  codes "EpochFormat:`" ++
+  items.flatMap (fun it => codes (tokenDebugNameX it.letter) ++ it.seps ++ (if it.optional then [63] else [])) ++ [96]
+
+/-- what the text must be at one place -/
+inductive Piece where
+  /-- exactly this text -/
+  | lit (t : List Nat)
+  /-- `%y`: an optional `-` and a non-empty run of ASCII digits, nothing more is demanded -/
+  | anyInt
+  /-- `%J`: a decimal numeral `digits[.digits]` within `2·10⁻¹²` of `num / den` (`den > 0`) -/
+  | real (num den : Int)
+
+def tokenPiece (c : Nat) (F : Fields) (off : Int) : Option Piece :=
+  if c = 119 then some (.lit [dig ((F.wd + 1) % 7)])
+  else if c = 121 then some .anyInt
+  else if c = 74 then some (.real ((F.doy - 1) * NPDs + timeOfDay F.h F.mi F.s F.ns + NPDs) NPDs)
+  else (tokenText c F off).map .lit
+
+def piecesGo (F : Fields) (off : Int) : List SItem → List Nat → Option (List Piece)
+  | [], _ => some []
+  | it :: rest, before =>
+    if omitted it F then piecesGo F off rest it.seps
+    else
+      match tokenPiece it.letter F off, piecesGo F off rest it.seps with
+      | some p, some r => some (.lit before :: p :: r)
+      | _, _ => none
+
+/-- the demanded shape of the text, as `render` above but with open places -/
+def pieces (items : List SItem) (F : Fields) (off : Int) : Option (List Piece) := piecesGo F off items []
+
+def digitsNat (t : List Nat) : Nat := t.foldl (fun a c => a * 10 + (c - 48)) 0
+
+/-- `digits[.digits]` read exactly: (numerator, denominator = a power of ten) -/
+def decimalOf (t : List Nat) : Option (Int × Int) :=
+  let ip := t.takeWhile isDig
+  let r := t.dropWhile isDig
+  if ip.isEmpty then none
+  else match r with
+    | [] => some ((digitsNat ip : Int), 1)
+    | 46 :: fp =>
+      if fp.isEmpty || !(fp.all isDig) then none
+      else some ((digitsNat (ip ++ fp) : Int), ((10 ^ fp.length : Nat) : Int))
+    | _ => none
+
+/-- `|n/p − num/den| ≤ 2·10⁻¹²`, in integers -/
+def closeTo (n p num den : Int) : Bool :=
+  decide ((n * den - num * p).natAbs * 1000000000000 ≤ 2 * (den * p).natAbs)
+
+/-- does the text have the demanded shape?  (an open place may end wherever the rest still matches) -/
+def matchGo : List Piece → List Nat → Bool
+  | [], t => t.isEmpty
+  | .lit l :: ps, t =>
+    (match dropPrefix l t with
+     | some r => matchGo ps r
+     | none => false)
+  | .anyInt :: ps, t =>
+    let t' := match t with | 45 :: r => r | _ => t
+    (List.range (t'.takeWhile isDig).length).any (fun k => matchGo ps (t'.drop (k + 1)))
+  | .real num den :: ps, t =>
+    (List.range t.length).any (fun k =>
+      match decimalOf (t.take (k + 1)) with
+      | some (n, p) => closeTo n p num den && matchGo ps (t.drop (k + 1))
+      | none => false)
+
 end Hifi.Spec.Efmt
